@@ -116,3 +116,8 @@ package channel
 //@ iface Channel.Close
 //@   modifies chCloses(self)
 //@   ensures chCloses(self) == old(chCloses(self)) + 1
+
+//@ func IsErrClosing
+//@   ensures result == isErrClosing(err)
+//@   ensures err == nil ==> !result
+//@ sentinel[*errors.errorString] ErrClosed
